@@ -70,3 +70,87 @@ agg_dispatch!(agg_dispatch_48, aggregate_48, 48, 12, 52);
 agg_dispatch!(agg_dispatch_128, aggregate_128, 128, 32, 132);
 //@ h=agg_dispatch_256 props=C01,C07 cfgs=K1 tier=t t=1200 | funcs: bucket_aggregation::aggregate_256 | bound: all inputs
 agg_dispatch!(agg_dispatch_256, aggregate_256, 256, 64, 260);
+
+// K6: the run-time dispatch ladder of the aggregation entry points (avx2 > ssse3 > sse2; on
+// x86_64 sse2 is a compile-time fact, so the naive fallback is unreachable there).
+#[cfg(all(feature = "opt-simd-bucket-aggregation", feature = "detect-features"))]
+mod ladder {
+    #![allow(unsafe_code)]
+    #![allow(static_mut_refs)]
+    use super::super::*;
+
+    static mut DET: [bool; 3] = [false; 3]; // avx2, ssse3, sse2
+    static mut CALLED: u8 = 0;
+    static mut ARGS: (usize, usize, u32, u32, u32) = (0, 0, 0, 0, 0);
+    fn det_avx2() -> bool {
+        unsafe { DET[0] }
+    }
+    fn det_ssse3() -> bool {
+        unsafe { DET[1] }
+    }
+    fn det_sse2() -> bool {
+        unsafe { DET[2] }
+    }
+    macro_rules! tag {
+        ($name:ident, $sb:literal, $nb:literal, $tag:literal) => {
+            unsafe fn $name(out: &mut [u8; $sb], b: &[u32; $nb], q1: u32, q2: u32, q3: u32) {
+                CALLED = $tag;
+                ARGS = (out.as_ptr() as usize, b.as_ptr() as usize, q1, q2, q3);
+                out[0] = 0xA0 + $tag;
+            }
+        };
+    }
+    tag!(t_avx2_48, 12, 48, 1);
+    tag!(t_ssse3_48, 12, 48, 2);
+    tag!(t_sse2_48, 12, 48, 3);
+    tag!(t_avx2_128, 32, 128, 1);
+    tag!(t_ssse3_128, 32, 128, 2);
+    tag!(t_sse2_128, 32, 128, 3);
+    tag!(t_avx2_256, 64, 256, 1);
+    tag!(t_ssse3_256, 64, 256, 2);
+    tag!(t_sse2_256, 64, 256, 3);
+
+    macro_rules! ladder {
+        ($name:ident, $f:ident, $sb:literal, $nb:literal, $s1:ident, $s2:ident, $s3:ident) => {
+            #[kani::proof]
+            #[kani::unwind(8)]
+            #[kani::stub(std_detect::detect::__is_feature_detected::avx2, det_avx2)]
+            #[kani::stub(std_detect::detect::__is_feature_detected::ssse3, det_ssse3)]
+            #[kani::stub(std_detect::detect::__is_feature_detected::sse2, det_sse2)]
+            #[kani::stub(super::super::x86_avx2::$f, $s1)]
+            #[kani::stub(super::super::x86_ssse3::$f, $s2)]
+            #[kani::stub(super::super::x86_sse2::$f, $s3)]
+            fn $name() {
+                let det: [bool; 3] = kani::any();
+                unsafe {
+                    DET = det;
+                    CALLED = 0;
+                }
+                let b: [u32; $nb] = kani::any();
+                let (q1, q2, q3): (u32, u32, u32) = (kani::any(), kani::any(), kani::any());
+                kani::assume(q1 <= q2 && q2 <= q3);
+                let mut out = [0u8; $sb];
+                $f(&mut out, &b, q1, q2, q3);
+                let expect: u8 = if det[0] { 1 } else if det[1] { 2 } else { 3 };
+                let (called, args) = unsafe { (CALLED, ARGS) };
+                assert!(called == expect);
+                assert!(out[0] == 0xA0 + expect);
+                assert!(args == (out.as_ptr() as usize, b.as_ptr() as usize, q1, q2, q3));
+                unsafe {
+                    CALLED = 0;
+                    DET = [false; 3];
+                }
+                $f(&mut out, &b, q1, q2, q3);
+                assert!(unsafe { CALLED } == expect);
+                kani::cover!(expect == 3 && !det[2]);
+                kani::cover!(expect == 2);
+            }
+        };
+    }
+    //@ h=agg_ladder_48 props=C07,C01 cfgs=K6 tier=q t=900 submod=ladder | funcs: bucket_aggregation::aggregate_48 with run-time dispatch (OnceLock + detection ladder avx2 > ssse3 > sse2) | bound: every outcome of the CPU-feature queries x all arguments: exactly the prescribed backend is called with the caller's arguments; the cached choice is reused | stubs: std_detect::detect::__is_feature_detected::{avx2,ssse3,sse2} -> harness-chosen booleans; the three SIMD aggregation functions -> tagging stubs (their correctness: agg_* lemmas)
+    ladder!(agg_ladder_48, aggregate_48, 12, 48, t_avx2_48, t_ssse3_48, t_sse2_48);
+    //@ h=agg_ladder_128 props=C07,C01 cfgs=K6 tier=q t=900 submod=ladder | funcs: bucket_aggregation::aggregate_128 with run-time dispatch | bound: as agg_ladder_48 | stubs: as agg_ladder_48
+    ladder!(agg_ladder_128, aggregate_128, 32, 128, t_avx2_128, t_ssse3_128, t_sse2_128);
+    //@ h=agg_ladder_256 props=C07,C01 cfgs=K6 tier=q t=900 submod=ladder | funcs: bucket_aggregation::aggregate_256 with run-time dispatch | bound: as agg_ladder_48 | stubs: as agg_ladder_48
+    ladder!(agg_ladder_256, aggregate_256, 64, 256, t_avx2_256, t_ssse3_256, t_sse2_256);
+}
